@@ -72,3 +72,241 @@ pub fn dec_type(bytes: &[u8]) -> Result<(WType, usize), String> {
     let (m, rest): (WType, &[u8]) = postcard::take_from_bytes(bytes).map_err(|e| format!("mirror decode: {e}"))?;
     Ok((m, bytes.len() - rest.len()))
 }
+
+// ---------------------------------------------------------------------------------------------
+// Span-recording encoder: the same postcard bytes as `enc`, plus where every field lies, so the
+// DESIGN 4.8 field-level corruptions (length fields, boundary moves, field swaps) can be applied.
+// `Spans::of` checks byte equality with the serde encoding of the same value (machinery error
+// otherwise), so the hand-written layout can never drift from the real one silently.
+
+#[derive(Clone, Copy, Debug, PartialEq, Eq)]
+pub enum FieldKind {
+    /// enum discriminant (varint u32)
+    Tag,
+    /// unsigned integer (varint)
+    Varint,
+    /// sequence / byte-string length (varint)
+    Len,
+    /// raw bytes (id bytes, bool)
+    Raw,
+}
+
+#[derive(Clone, Debug)]
+pub struct Field {
+    pub start: usize,
+    pub end: usize,
+    pub kind: FieldKind,
+    pub name: String,
+    /// numeric value for Tag/Varint/Len fields
+    pub value: u128,
+}
+
+#[derive(Clone, Debug, Default)]
+pub struct Spans {
+    pub bytes: Vec<u8>,
+    pub fields: Vec<Field>,
+}
+
+pub fn varint_bytes(mut v: u128) -> Vec<u8> {
+    let mut out = Vec::new();
+    loop {
+        let b = (v & 0x7f) as u8;
+        v >>= 7;
+        if v == 0 {
+            out.push(b);
+            return out;
+        }
+        out.push(b | 0x80);
+    }
+}
+
+impl Spans {
+    fn num(&mut self, kind: FieldKind, name: &str, v: u128) {
+        let start = self.bytes.len();
+        self.bytes.extend(varint_bytes(v));
+        self.fields.push(Field { start, end: self.bytes.len(), kind, name: name.to_string(), value: v });
+    }
+    fn raw(&mut self, name: &str, b: &[u8]) {
+        let start = self.bytes.len();
+        self.bytes.extend_from_slice(b);
+        self.fields.push(Field { start, end: self.bytes.len(), kind: FieldKind::Raw, name: name.to_string(), value: 0 });
+    }
+    fn id(&mut self, name: &str, b: &[u8]) {
+        self.num(FieldKind::Len, &format!("{name}.len"), b.len() as u128);
+        self.raw(name, b);
+    }
+    fn addr(&mut self, name: &str, a: &Address) {
+        self.id(&format!("{name}.id"), a.id.as_bytes());
+        self.num(FieldKind::Varint, &format!("{name}.max_cut"), a.max_cut.get() as u128);
+    }
+    fn addrs(&mut self, name: &str, v: &[Address]) {
+        self.num(FieldKind::Len, &format!("{name}.len"), v.len() as u128);
+        for (i, a) in v.iter().enumerate() {
+            self.addr(&format!("{name}[{i}]"), a);
+        }
+    }
+    fn duration(&mut self, name: &str, d: &Duration) {
+        self.num(FieldKind::Varint, &format!("{name}.secs"), d.as_secs() as u128);
+        self.num(FieldKind::Varint, &format!("{name}.nanos"), d.subsec_nanos() as u128);
+    }
+    fn req(&mut self, r: &WReq) {
+        match r {
+            WReq::SyncRequest { session_id, graph_id, max_bytes, commands } => {
+                self.num(FieldKind::Tag, "request.tag", 0);
+                self.num(FieldKind::Varint, "session_id", *session_id);
+                self.id("graph_id", graph_id.as_bytes());
+                self.num(FieldKind::Varint, "max_bytes", *max_bytes as u128);
+                self.addrs("commands", commands);
+            }
+            WReq::RequestMissing { session_id, indexes } => {
+                self.num(FieldKind::Tag, "request.tag", 1);
+                self.num(FieldKind::Varint, "session_id", *session_id);
+                self.num(FieldKind::Len, "indexes.len", indexes.len() as u128);
+                for (i, x) in indexes.iter().enumerate() {
+                    self.num(FieldKind::Varint, &format!("indexes[{i}]"), *x as u128);
+                }
+            }
+            WReq::SyncResume { session_id, response_index, max_bytes } => {
+                self.num(FieldKind::Tag, "request.tag", 2);
+                self.num(FieldKind::Varint, "session_id", *session_id);
+                self.num(FieldKind::Varint, "response_index", *response_index as u128);
+                self.num(FieldKind::Varint, "max_bytes", *max_bytes as u128);
+            }
+            WReq::EndSession { session_id } => {
+                self.num(FieldKind::Tag, "request.tag", 3);
+                self.num(FieldKind::Varint, "session_id", *session_id);
+            }
+        }
+    }
+    fn resp(&mut self, r: &WResp) {
+        match r {
+            WResp::SyncResponse { session_id, response_index, commands } => {
+                self.num(FieldKind::Tag, "response.tag", 0);
+                self.num(FieldKind::Varint, "session_id", *session_id);
+                self.num(FieldKind::Varint, "response_index", *response_index as u128);
+                self.num(FieldKind::Len, "commands.len", commands.len() as u128);
+                for (i, m) in commands.iter().enumerate() {
+                    let n = format!("commands[{i}]");
+                    self.id(&format!("{n}.id"), m.id.as_bytes());
+                    match &m.priority {
+                        Priority::Merge => self.num(FieldKind::Tag, &format!("{n}.priority.tag"), 0),
+                        Priority::Basic(p) => {
+                            self.num(FieldKind::Tag, &format!("{n}.priority.tag"), 1);
+                            self.num(FieldKind::Varint, &format!("{n}.priority.basic"), *p as u128);
+                        }
+                        Priority::Finalize => self.num(FieldKind::Tag, &format!("{n}.priority.tag"), 2),
+                        Priority::Init => self.num(FieldKind::Tag, &format!("{n}.priority.tag"), 3),
+                    }
+                    match &m.parent {
+                        Prior::None => self.num(FieldKind::Tag, &format!("{n}.parent.tag"), 0),
+                        Prior::Single(a) => {
+                            self.num(FieldKind::Tag, &format!("{n}.parent.tag"), 1);
+                            self.addr(&format!("{n}.parent"), a);
+                        }
+                        Prior::Merge(a, b) => {
+                            self.num(FieldKind::Tag, &format!("{n}.parent.tag"), 2);
+                            self.addr(&format!("{n}.parent.left"), a);
+                            self.addr(&format!("{n}.parent.right"), b);
+                        }
+                    }
+                    self.num(FieldKind::Varint, &format!("{n}.policy_length"), m.policy_length as u128);
+                    self.num(FieldKind::Varint, &format!("{n}.length"), m.length as u128);
+                }
+            }
+            WResp::SyncEnd { session_id, max_index, remaining } => {
+                self.num(FieldKind::Tag, "response.tag", 1);
+                self.num(FieldKind::Varint, "session_id", *session_id);
+                self.num(FieldKind::Varint, "max_index", *max_index as u128);
+                self.raw("remaining", &[*remaining as u8]);
+            }
+            WResp::Offer { session_id, head } => {
+                self.num(FieldKind::Tag, "response.tag", 2);
+                self.num(FieldKind::Varint, "session_id", *session_id);
+                self.id("head", head.as_bytes());
+            }
+            WResp::EndSession { session_id } => {
+                self.num(FieldKind::Tag, "response.tag", 3);
+                self.num(FieldKind::Varint, "session_id", *session_id);
+            }
+        }
+    }
+    fn ty(&mut self, t: &WType) {
+        match t {
+            WType::Poll { request } => {
+                self.num(FieldKind::Tag, "type.tag", 0);
+                self.req(request);
+            }
+            WType::Subscribe { remain_open, max_bytes, commands, graph_id } => {
+                self.num(FieldKind::Tag, "type.tag", 1);
+                self.num(FieldKind::Varint, "remain_open", *remain_open as u128);
+                self.num(FieldKind::Varint, "max_bytes", *max_bytes as u128);
+                self.addrs("commands", commands);
+                self.id("graph_id", graph_id.as_bytes());
+            }
+            WType::Unsubscribe { graph_id } => {
+                self.num(FieldKind::Tag, "type.tag", 2);
+                self.id("graph_id", graph_id.as_bytes());
+            }
+            WType::Push { message, graph_id } => {
+                self.num(FieldKind::Tag, "type.tag", 3);
+                self.resp(message);
+                self.id("graph_id", graph_id.as_bytes());
+            }
+            WType::Hello(h) => {
+                self.num(FieldKind::Tag, "type.tag", 4);
+                match h {
+                    WHello::Subscribe { graph_id, graph_change_delay, duration, schedule_delay } => {
+                        self.num(FieldKind::Tag, "hello.tag", 0);
+                        self.id("graph_id", graph_id.as_bytes());
+                        self.duration("graph_change_delay", graph_change_delay);
+                        self.duration("duration", duration);
+                        self.duration("schedule_delay", schedule_delay);
+                    }
+                    WHello::Unsubscribe { graph_id } => {
+                        self.num(FieldKind::Tag, "hello.tag", 1);
+                        self.id("graph_id", graph_id.as_bytes());
+                    }
+                    WHello::Hello { graph_id, head } => {
+                        self.num(FieldKind::Tag, "hello.tag", 2);
+                        self.id("graph_id", graph_id.as_bytes());
+                        self.addr("head", head);
+                    }
+                }
+            }
+        }
+    }
+
+    /// Spans of a top-level `SyncType` message followed by `payload` (command bytes).
+    pub fn of_type(t: &WType, payload: &[u8]) -> Spans {
+        let mut s = Spans::default();
+        s.ty(t);
+        if s.bytes != enc(t) {
+            mcx::machinery_error(&format!("span encoder disagrees with postcard for {t:?}"));
+        }
+        s.payload(payload);
+        s
+    }
+    /// Spans of a bare response message (what `SyncRequester::receive` reads) followed by `payload`.
+    pub fn of_resp(r: &WResp, payload: &[u8]) -> Spans {
+        let mut s = Spans::default();
+        s.resp(r);
+        if s.bytes != enc(r) {
+            mcx::machinery_error(&format!("span encoder disagrees with postcard for {r:?}"));
+        }
+        s.payload(payload);
+        s
+    }
+    pub fn of_subscribe_result(r: &WSubscribeResult) -> Spans {
+        let mut s = Spans::default();
+        s.num(FieldKind::Tag, "result.tag", matches!(r, WSubscribeResult::TooManySubscriptions) as u128);
+        if s.bytes != enc(r) {
+            mcx::machinery_error("span encoder disagrees with postcard for SubscribeResult");
+        }
+        s
+    }
+    fn payload(&mut self, p: &[u8]) {
+        if !p.is_empty() {
+            self.raw("payload", p);
+        }
+    }
+}
